@@ -282,12 +282,19 @@ func Run(c Case) (pbt.Outcome, error) {
 					}
 				}
 				ca, ka := tot(cname), tot(kname)
+				// one tag map per worker, refilled for every cycle and overwritten right after the call
+				// ("one map, loop over the tag values"): the library copies it on every derivation
+				tagMap := map[string]string{}
 				for k := 0; k < w.Cycles; k++ {
 					var sub tally.Scope
 					if w.Tagged && c.Sanitize {
-						sub = root.Tagged(map[string]string{"id": fmt.Sprintf("s%c%d", "-."[k%2], w.Target)})
+						tagMap["id"] = fmt.Sprintf("s%c%d", "-."[k%2], w.Target)
+						sub = root.Tagged(tagMap)
+						tagMap["id"] = "spoiled-by-caller"
 					} else if w.Tagged {
-						sub = root.Tagged(map[string]string{"id": name})
+						tagMap["id"] = name
+						sub = root.Tagged(tagMap)
+						tagMap["id"] = "spoiled-by-caller"
 					} else {
 						sub = root.SubScope(name)
 					}
